@@ -81,7 +81,7 @@ package digest
 //@ func (Digest).GetKey
 //@   trusted
 //@   modifies nothing
-//@   ensures result == dgKeyF(d.value, format)
+//@   opt deterministic dgKeyF(d.value, format)
 //@ func (*ExistenceCache).RemoveExisting
 //@   trusted
 //@   modifies ecRemoveRes(ec), evTouches(ec.evictionSet)
